@@ -31,7 +31,10 @@ def observe(parser, q, alias):
     """One call of the observed entry point -> raw observation (no judgement)."""
     o = {'q': enc(q), 'none': [True, True, True], 'idx': '', 'bc': [], 'd': -1, 'raised': ''}
     try:
-        res = parser.getIndexCorrectedBarcodeAndHammingDistance(q, alias)
+        if len(q) % 2 or sum(map(ord, q)) % 2:     # both call forms in use (demultiplexers call with keywords)
+            res = parser.getIndexCorrectedBarcodeAndHammingDistance(alias=alias, barcode=q)
+        else:
+            res = parser.getIndexCorrectedBarcodeAndHammingDistance(q, alias)
     except Exception as ex:  # a raising lookup is an observation
         o['raised'] = type(ex).__name__
         return o
@@ -86,23 +89,31 @@ def run_small(scn, tid, rng, root, BarcodeParser):
             else:
                 it = idx_text(f['idx'][i], tid)
                 sep = '\t' if (tid + i) % 2 else ' '
-                lines.append(s + sep + it if f['fmt'] == 'bc_idx' else it + sep + s)
+                lines.append((s + sep + it if f['fmt'] == 'bc_idx' else it + sep + s) + (' ' if tid % 4 == 1 else ''))   # trailing blank as in lk_virus1.bc
                 wl.append([enc(s), it])
         fmts.append(f['fmt'])
         if via == 'file':
             p = os.path.join(d, names[fno])
-            data = '\n'.join(lines) + ('\n' if tid % 2 else '')     # with and without trailing newline
+            eol = '\r\n' if tid % 5 == 2 else '\n'                 # CRLF files too
+            data = eol.join(lines) + (eol if tid % 2 else '')        # with and without trailing newline
             if p.endswith('.gz'):
-                with gzip.open(p, 'wt') as h:
+                with gzip.open(p, 'wt', newline='') as h:
                     h.write(data)
             else:
-                with open(p, 'w') as h:
+                with open(p, 'w', newline='') as h:
                     h.write(data)
+    if via == 'file' and tid % 4 == 0:
+        # another alias in the same directory whose name extends this one, with the one barcode that would change most
+        # answers if the two whitelists were mixed up
+        with open(os.path.join(d, alias + 'x.bc'), 'w') as h:
+            h.write('N' * L + '\n' + 'A' * L + '\n')
     if via == 'api':
         parser = BarcodeParser(d)   # empty directory
         for bc, it in wl:
             parser.addBarcode(alias, barcode=dec(bc), index=int(it) if it.isdigit() else it)
         parser.expand(k, alias=alias)
+        if tid % 10 == 0:
+            parser.expand(k, alias=alias)      # expanding twice is idempotent
     else:
         lz = None if not lazy else ((alias,) if tid % 2 else '*')
         parser = BarcodeParser(d, hammingDistanceExpansion=k, lazyLoad=lz)
@@ -112,8 +123,9 @@ def run_small(scn, tid, rng, root, BarcodeParser):
     qs = all_strings(L)
     rng.shuffle(qs)
     ans = [observe(parser, q, alias) for q in qs]
+    again = [observe(parser, q, alias) for q in qs[:3] + qs[-1:]]       # history: the same parser asked again
     shutil.rmtree(d, True)
-    return {'ev': 'small', 'tid': tid, 'L': L, 'k': k, 'lazy': lazy, 'touch': touch, 'via': via, 'nfiles': len(files), 'fmt': fmts,
+    return {'ev': 'small', 'again': again, 'tid': tid, 'L': L, 'k': k, 'lazy': lazy, 'touch': touch, 'via': via, 'nfiles': len(files), 'fmt': fmts,
             'wl': wl, 'ans': ans}
 
 
@@ -218,6 +230,7 @@ def replay(out, ev, BarcodeParser, md):
                     parser[alias]
             e2 = dict(ev)
             e2['ans'] = [observe(parser, dec(a['q']), alias) for a in ev['ans']]
+            e2['again'] = [observe(parser, dec(a['q']), alias) for a in ev.get('again', [])]
             f.write(json.dumps(e2) + '\n')
         else:
             folder = os.path.join(os.path.dirname(md.__file__), ev['dir'])
@@ -270,6 +283,7 @@ def main():
                 plan += [('barcodes', a) for a in ('celseq1', 'CS2_scattered', 'DamID2_scattered', 'maya_mspj1', 'scartrace',
                                                     'nla_bisulfite', 'illumina_RP_indices')] + \
                         [('indices', a) for a in ('illumina_TruSeq_indices', 'illumina_i7_indices', 'illumina_merged_iPCR_RP')]
+            parsers = {}
             for sub, alias in plan:
                 folder = os.path.join(base, sub)
                 paths = [p for p in sorted(os.listdir(folder))
@@ -280,7 +294,10 @@ def main():
                 if ent is None:
                     continue
                 for k in (0, 1, 2):
-                    parser = BarcodeParser(folder, hammingDistanceExpansion=k, lazyLoad='*')
+                    # one parser per (directory, k) serves all its aliases one after the other (as one demultiplexer run does)
+                    if (sub, k) not in parsers:
+                        parsers[(sub, k)] = BarcodeParser(folder, hammingDistanceExpansion=k, lazyLoad='*')
+                    parser = parsers[(sub, k)]
                     touch = 'getitem' if k == 1 else 'lookup'      # first access to the lazy alias
                     if touch == 'getitem':
                         parser[alias]
